@@ -114,3 +114,21 @@ func init() {
 		Assumptions: []string{trustDeps},
 	}
 }
+
+func init() {
+	Properties["C02"] = PropSpec{
+		Rules:       []Rule{MustPass, RuleSeq, ResultAlgebra},
+		Explanation: "MUST-PASS: in (*SpecValidator).Validate the validation of json.Unmarshal(doc.Raw()) against the validator's Swagger schema, built with the validator's schemaOptions, dominates every other rule and every verdict-returning exit; NewSpecValidator applies SwaggerSchema(true) (both strictness flags) to those options; the result is merged with Merge into the error accumulator (RULE-SEQ) whose errors only grow (RESULT-ALGEBRA / RES-ALIAS: append-only writes); Spec() returns nil exactly on !errs.HasErrors(); each expanded parameter is re-validated against #/definitions/parameter and merged.",
+		NotDecided:  "That the schema pass itself is right for the 1600-line Swagger schema: that is C01 (draft-4 agreement), which is value-level.",
+		Assumptions: []string{trustDeps},
+	}
+}
+
+func init() {
+	Properties["C13"] = PropSpec{
+		Rules:       []Rule{Narrow},
+		Explanation: "NARROW: every numeric ssa.Convert of the package is classified; one that can change the mathematical value (float→integer, signed↔unsigned, narrowing) must be dominated by an integrality test plus a range test of its operand (possibly packaged in a one-parameter predicate of the package, whose true-returning paths are inspected), or be unreachable for every Go numeric carrier type (abstract D-DYN runs from MaximumNativeType/MinimumNativeType/MultipleOfNativeType/IsValueValidAgainstRange/numberValidator.Validate over float32/64, int*, uint*: the as* helpers only take their value-preserving branch). The kind-specific reflect getters are legal for the kinds that reach them (D-DYN). json.Number: Int64() is selected exactly on Type.Contains(integer), Float64() on its negation, and both error edges add an error.",
+		NotDecided:  "Exactness of the float arithmetic itself (MultipleOf's division and IsFloat64AJSONInteger tolerance), values beyond ±2^53, decimal fractions.",
+		Assumptions: []string{"numbers within ±2^53 (C13), so integer→float64 is exact", "int is 64 bits wide", trustDeps},
+	}
+}
